@@ -195,6 +195,20 @@ class Facts:
                         self.ge(x, a, 0)
                         self.ge(x, b, 0)
 
+            if x[0] == "binop" and x[1] == "Sub" and strip_widen(x[3])[0] != "int":
+                # unchecked atom - atom (release builds): wrap-around is excluded by the overflow assertion the debug build
+                # has at the same place, which the audit discharges in the debug configuration; hence exact arithmetic
+                t, k = lin(x)
+                if (t, k) == (x, 0):
+                    self.ge(x[2], x, 0)
+                    self.add(x, ZERO, 0)
+                    # x + b == a
+                    tb, kb = lin(x[3])
+                    ta, ka = lin(x[2])
+                    if tb != ZERO and ta != ZERO:
+                        self.sums = getattr(self, "sums", [])
+                        self.sums.append((x, x[3], x[2]))
+
     def _len_atom_of(self, slice_expr):
         out = []
         for a in list(self.atoms) + list(self._pending_len):
